@@ -1291,6 +1291,13 @@ impl Connection {
             debug!("ignoring forced key update in illegal state");
             return;
         }
+        if self.spaces[SpaceId::Handshake].crypto.is_some() {
+            // Handshake keys are retained until the handshake is confirmed. Initiating a key
+            // update before then is illegal, and the peer would close the connection with
+            // KEY_UPDATE_ERROR.
+            debug!("ignoring forced key update prior to handshake confirmation");
+            return;
+        }
         if self.prev_crypto.is_some() {
             // We already just updated, or are currently updating, the keys. Concurrent key updates
             // are illegal.
